@@ -67,7 +67,14 @@ def pipeline_key(tier, seed, tag):
     return vlib.sha(tag, tier, str(seed), vlib.file_hash(files + mine))
 
 
-def run_schema(S, tier, seed, configs, wd, extra_cfg="", emit=("EmitDecode", "EmitEncode"), shapes_k=None):
+MACHINES = {
+    # name: (root module, INIT, NEXT, invariants, emission lines of the cfg)
+    "view": ("ViewEmit", "Init", "Next", INVARIANTS, "CONSTRAINT EmitDecode\nACTION_CONSTRAINT EmitEncode\n"),
+    "cursor": ("Cursor", "CInit", "CNext", ["CTypeOK", "TableLaws", "LevelWalk"], "ACTION_CONSTRAINT EmitCursorAndStop\n"),
+}
+
+
+def run_schema(S, tier, seed, configs, wd, extra_cfg="", machine="view", shapes_k=None):
     """Returns dict(schema, tlc=[...], vectors=n, runs=[{config, stat, mismatches}], errors=[...])."""
     rnd = random.Random("%s-%s" % (seed, S["package"]))
     name = S["package"]
@@ -82,23 +89,20 @@ def run_schema(S, tier, seed, configs, wd, extra_cfg="", emit=("EmitDecode", "Em
     disp = os.path.join(sdir, "dispatch_%s.inc" % name)
     vlib.write(disp, viewgen.dispatch_cpp(S))
     stla = viewgen.schema_tla(S)
-    k = shapes_k or (10 if tier == "quick" else 48)
+    root, init, nxt, invs, emit_cfg = MACHINES[machine]
+    k = shapes_k or {"view": (10, 48), "cursor": (3, 12)}[machine][0 if tier == "quick" else 1]
 
     def tlc_msg(mi):
         m = S["messages"][mi - 1]
         nl = count_levels(m)
         shapes = choose_shapes(nl, k, random.Random("%s-%s-%d" % (seed, name, mi)))
         body = "SDef == %s\nShapesDef == {%s}\n" % (stla, ",\n ".join(shape_tla(*s) for s in shapes))
-        cfg = "CONSTANT S <- SDef\nCONSTANT MI = %d\nCONSTANT Shapes <- ShapesDef\nCONSTANT Margin = 8\nINIT Init\nNEXT Next\n" % mi
-        cfg += "".join("INVARIANT %s\n" % i for i in INVARIANTS)
-        if "EmitDecode" in emit:
-            cfg += "CONSTRAINT EmitDecode\n"
-        if "EmitEncode" in emit:
-            cfg += "ACTION_CONSTRAINT EmitEncode\n"
-        cfg += extra_cfg
-        d = os.path.join(sdir, "mc%d" % mi)
-        mc(d, "MC_View", "ViewEmit", body, cfg)
-        r = tlc("MC_View", cwd=d, workers=1, xmx="3g", timeout=900)
+        cfg = "CONSTANT S <- SDef\nCONSTANT MI = %d\nCONSTANT Shapes <- ShapesDef\nCONSTANT Margin = 8\nINIT %s\nNEXT %s\n" % (mi, init, nxt)
+        cfg += "".join("INVARIANT %s\n" % i for i in invs)
+        cfg += emit_cfg + extra_cfg
+        d = os.path.join(sdir, "mc-%s-%d" % (machine, mi))
+        mc(d, "MC_View", root, body, cfg)
+        r = tlc("MC_View", cwd=d, workers=1 if machine == "view" else 3, xmx="3g", timeout=1500)
         return mi, m["name"], len(shapes), r
 
     vectors = []
@@ -109,10 +113,10 @@ def run_schema(S, tier, seed, configs, wd, extra_cfg="", emit=("EmitDecode", "Em
             res["spec_violations"].append({"msg": mname, "violated": r.violated, "tail": r.raw[-1200:]})
             continue
         vectors += r.records
-    vec = os.path.join(sdir, "vectors.ndjson")
+    vec = os.path.join(sdir, "vectors-%s.ndjson" % machine)
     write_ndjson(vec, vectors)
     res["vectors"] = len(vectors)
-    for kind in ("decode", "encode"):
+    for kind in ("decode", "encode", "cursor"):
         for x in vectors:
             if x["kind"] == kind:
                 s = dict(x)
@@ -144,7 +148,7 @@ def run_schema(S, tier, seed, configs, wd, extra_cfg="", emit=("EmitDecode", "Em
     return res
 
 
-def run_catalogue(tag, schemas, tier, seed, configs_for=None):
+def run_catalogue(tag, schemas, tier, seed, configs_for=None, machine="view"):
     key = pipeline_key(tier, seed, tag)
     cpath = os.path.join(vlib.CACHE, "view", "%s-%s.json" % (tag, key))
     if os.path.exists(cpath) and os.environ.get("VERIF_NOCACHE") != "1":
@@ -155,7 +159,7 @@ def run_catalogue(tag, schemas, tier, seed, configs_for=None):
     def job(iS):
         i, S = iS
         cfgs = configs_for(i, S, base) if configs_for else base
-        return run_schema(S, tier, seed, cfgs, wd)
+        return run_schema(S, tier, seed, cfgs, wd, machine=machine)
 
     results = vlib.parallel(list(enumerate(schemas)), job, nproc=4)
     vlib.write(cpath + ".tmp%d" % os.getpid(), json.dumps(results))
@@ -165,6 +169,10 @@ def run_catalogue(tag, schemas, tier, seed, configs_for=None):
 
 def view_results(tier, seed):
     return run_catalogue("view", catalogue.view_schemas(), tier, seed)
+
+
+def cursor_results(tier, seed):
+    return run_catalogue("cursor", catalogue.view_schemas(), tier, seed, machine="cursor")
 
 
 def header_results(tier, seed):
